@@ -15,3 +15,11 @@ chk(
     "runtime monitoring: hooked invariants (analysis claim vs concrete register state) during execution on an abstract machine",
     "DESIGN.md section 3 C07",
 )
+chk(
+    "C06",
+    "translation_validation",
+    "Every generated program is traced and deduplicated (and also left undeduplicated) by the real passes, then run through the real accfg-config-overlap and executed before and after on the accfg register machine for several runtime vectors (lb!=0, step!=1, loop-carried operands, trip counts 0..5); launch/await order, launch values and the register file latched by each launch are compared, a moved op reading an unbound value (dynamic dominance monitor) or a verifier failure is a violation.",
+    TB + "accfg machine. One known finding (extra next-iteration setup after the last iteration) is attributed by a structural predicate plus a counterfactual re-run with a guarded pattern (vf/counterfactual/overlap.py).",
+    "runtime monitoring: before/after execution traces of the real pass on an abstract register machine, dynamic use-before-def monitor",
+    "DESIGN.md section 3 C06",
+)
